@@ -21,7 +21,7 @@ OPTIONS = {"text": {"allow_text": True}, "text_group": {"allow_text": True}}
 def extra_docs():
     """documents for the determinism / idempotence / reference checks"""
     return {
-        "text": f'<svg {NS} viewBox="0 0 100 100" fill="red" stroke-width="2" fill-rule="evenodd" stroke-linecap="round" opacity="0.9"><text x="10" y="20" font-size="8">hi <tspan dy="3">there</tspan></text><rect width="5" height="5"/></svg>',
+        "text": f'<svg {NS} viewBox="0 0 100 100" fill="red" stroke-width="2" fill-rule="evenodd" stroke-linecap="round"><text x="10" y="20" font-size="8">hi <tspan dy="3">there</tspan></text><rect width="5" height="5"/></svg>',
         "text_group": f'<svg {NS} viewBox="0 0 100 100"><g fill="blue" stroke="none" fill-opacity="0.5" clip-rule="evenodd" display="inline"><text x="1" y="2">a</text></g></svg>',
         "three_gradients": f'<svg {NS} viewBox="0 0 100 100"><defs>'
                            + "".join(f'<linearGradient id="g{c}" x1="0" x2="1"><stop offset="0" stop-color="red"/><stop offset="1" stop-color="blue"/></linearGradient>' for c in "abc")
@@ -31,3 +31,16 @@ def extra_docs():
                             f'<clipPath id="Z" clip-path="url(#X)"><rect width="10" height="10"/></clipPath></defs><rect width="10" height="10" clip-path="url(#Z)"/></svg>',
         "stroked": f'<svg {NS} viewBox="0 0 50 50"><path d="M5,5 L40,5 L40,40" fill="none" stroke="black" stroke-width="3" id="p"/><circle cx="20" cy="20" r="6" fill="red" stroke="blue" id="c"/></svg>',
     }
+
+# documents that pin recorded findings (stable names: known_findings.json refers to them)
+PINNED = {
+    "root_opacity": f'<svg {NS} viewBox="0 0 100 100" opacity="0.5"><rect x="10" y="10" width="40" height="40" fill="red"/><rect x="30" y="30" width="40" height="40" fill="blue"/></svg>',
+    "explicit_fill_equal_to_defs_context": f'<svg {NS} viewBox="0 0 100 100" fill="teal"><defs><rect id="u0" x="10" y="10" width="30" height="30" fill="teal"/></defs><g fill="blue"><use xlink:href="#u0" x="5"/></g></svg>',
+    "opacity_group_loses_sibling": f'<svg {NS} viewBox="0 0 100 100"><g opacity="0.5"><rect x="10" y="10" width="40" height="40" fill="red"/><path d="M0,0" fill="blue"/></g></svg>',
+    "zero_opacity_outer_group": f'<svg {NS} viewBox="0 0 100 100"><g opacity="0"><g opacity="0.5"><rect x="10" y="10" width="40" height="40" fill="red"/><rect x="30" y="30" width="40" height="40" fill="blue"/></g></g><rect x="60" y="60" width="20" height="20"/></svg>',
+    "opacity_rounded_with_coordinates": f'<svg {NS} viewBox="0 0 100 100"><rect x="10" y="10" width="40" height="40" fill="red" opacity="0.5"/><rect x="60" y="60" width="20" height="20" fill="blue"/></svg>',
+    "drop_unsupported_leaves_single_child_group": f'<svg {NS} viewBox="0 0 100 100"><g opacity="0.5"><text x="10" y="20">hi</text><rect width="5" height="5"/></g></svg>',
+    "two_nested_svgs_clip_ids": f'<svg {NS} viewBox="0 0 100 100"><svg x="0" y="0" width="40" height="40"><rect width="60" height="60" fill="red"/></svg><svg x="50" y="50" width="40" height="40"><rect width="60" height="60" fill="blue"/></svg></svg>',
+}
+
+PINNED_OPTIONS = {"opacity_rounded_with_coordinates": {"ndigits": 0}}
